@@ -66,6 +66,10 @@ CLI_SCENARIOS = (
     ('build_gfx', 'png', 'valid', 'default'),
     ('build_lua_format', 'p8', 'valid', 'formatter'),
     ('build_lua_format', 'png', 'valid', 'formatter'),
+    # build over a destination that is not a loadable cart: the command fails by itself; further faults on top
+    ('build_lua', 'p8', 'garbage', 'default'),
+    ('build_lua', 'png', 'garbage', 'minify'),
+    ('build_gfx', 'p8', 'garbage', 'default'),
     # two carts in one invocation: the first one's output is new, the second one's exists
     ('luamin_two', 'p8', 'valid', 'minify'),
     ('writep8_two', 'png', 'valid', 'default'),
@@ -95,6 +99,11 @@ def lib_scenarios():
         for dest in ('absent', 'valid'):
             out.append({'path': 'lib', 'fmt': fmt, 'dest': dest, 'writer': 'formatter', 'garbage': 0, 'idx': i, 'deep': True})
             i += 1
+    # no usable directory for temporary files (tempfile.tempdir points nowhere): the write fails by itself
+    for fmt in FORMATS:
+        for dest in ('absent', 'valid'):
+            out.append({'path': 'lib', 'fmt': fmt, 'dest': dest, 'writer': 'default', 'garbage': 0, 'idx': i, 'no_tmp': True})
+            i += 1
     # .p8.png with the label taken from another file (the documented label_fname argument)
     for dest in ('absent', 'valid'):
         for w in WRITERS:
@@ -110,7 +119,7 @@ def cli_scenarios():
 
 def scn_key(scn):
     return '%s%s%s/%s/%s/%s/g%d/%s' % (scn['path'], '+label_fname' if scn.get('label_from') else '',
-                                       '+deep' if scn.get('deep') else '', scn['fmt'],
+                                       ('+deep' if scn.get('deep') else '') + ('+no_tmp' if scn.get('no_tmp') else ''), scn['fmt'],
                                      scn['dest'], scn['writer'], scn.get('garbage', 0), bytes(scn['salt']).hex())
 
 
@@ -326,6 +335,15 @@ class Scenario:
                 kw['lua_writer_args'] = {'indentwidth': m['indent']}
             if self.label_from:
                 kw['label_fname'] = self.label_from
+            if self.scn.get('no_tmp'):
+                import tempfile as _tf
+                old_dir = _tf.tempdir
+                _tf.tempdir = os.path.join(os.path.dirname(self.dest), 'no', 'such', 'dir')
+                try:
+                    pfile.to_file(g, self.dest, **kw)
+                finally:
+                    _tf.tempdir = old_dir
+                return 0
             pfile.to_file(g, self.dest, **kw)
             return 0
         from pico8 import tool
@@ -546,7 +564,9 @@ def run_spec_result(ctx, sc, spec, inj, err, rc):
     """Judge a run that failed by itself (code too deep) with or without an injected fault on top."""
     case = {'scn': dict(sc.scn), 'spec': dict(spec)}
     fired, labs = judge(sc, spec, inj, err, rc, None, sc.td, case)
-    labs = [x for x in labs if x != 'failed_without_fault'] + base_labels(sc) + ['deep_code_natural_failure']
+    labs = [x for x in labs if x != 'failed_without_fault'] + base_labels(sc) + [
+        'deep_code_natural_failure' if sc.scn.get('deep') else 'no_tmp_dir_natural_failure' if sc.scn.get('no_tmp')
+        else 'build_over_unloadable_out']
     ctx.stats.case((scn_key(sc.scn), sorted(spec.items())), sc.before is not None,
                    {'scenario': scn_key(sc.scn), 'fault': dict(spec), 'outcome': show(repr(err), 70) if err is not None else 'rc=%r' % rc}
                    if spec['kind'] == 'natural' else None, labs)
@@ -594,7 +614,7 @@ def run_scenario(ctx, scn, si):
                 return
             mine = lambda i: True
             owner = True
-        if scn.get('deep'):
+        if scn.get('deep') or scn.get('no_tmp') or (scn['path'].startswith('build') and scn['dest'] == 'garbage'):
             if not mine(0):
                 return
             sub = os.path.join(td, 'a0')
@@ -608,7 +628,7 @@ def run_scenario(ctx, scn, si):
                            'after': 0, 'expect_natural': True}]):
                 inj, err, rc = attempt(sc, spec)
                 if err is None and rc in (0, None) and not inj.fired:
-                    ctx.stats.count('deep_code_written_without_failure')     # (a tree that copes with the depth)
+                    ctx.stats.count('expected_natural_failure_did_not_happen')     # (a tree that copes)
                     sc.reset()
                     continue
                 run_spec_result(ctx, sc, spec, inj, err, rc)
@@ -736,7 +756,8 @@ def vacuity(total, tier):
             'label_unreadable_failed', 'cli_luafmt_overwrite', 'cli_luamin', 'cli_writep8', 'cli_build', 'path_lib',
             'fmt_p8', 'fmt_png', 'dest_absent', 'dest_valid', 'dest_garbage', 'writer_default', 'writer_minify',
             'writer_formatter', 'label', 'no_label', 'post_batch_ok', 'cli_two_carts', 'earlier_cart_output_complete',
-            'label_fname_given', 'interrupted_by_ctrl_c', 'deep_code_natural_failure', 'after_earlier_command_with_debug', 'after_earlier_command_with_q',
+            'label_fname_given', 'interrupted_by_ctrl_c', 'deep_code_natural_failure', 'no_tmp_dir_natural_failure',
+            'build_over_unloadable_out', 'after_earlier_command_with_debug', 'after_earlier_command_with_q',
             'stream_write:p8:absent', 'stream_write:p8:valid', 'stream_write:p8:garbage',
             'stream_write:png:absent', 'stream_write:png:valid']
     need += ['section_raises_' + s for s in ('gfx', 'label', 'gff', 'map', 'sfx', 'music')]
